@@ -1277,6 +1277,9 @@ def corrupt(rng, data):
 def small_convs(rng, n, maxlen=420):
     """A fixed-size mix of short conversations (normal ones and one per finding class)."""
     out = [gen_feature(rng, f) for f in FEATURES]
+    # every use enumerates cuts / corruptions of these streams: keep them small (a feature
+    # conversation with a multi-frame body can be tens of kilobytes)
+    out = [c for c in out if len(c.stream("c")) <= 4 * maxlen and len(c.stream("s")) <= 4 * maxlen]
     while len(out) < n + len(FEATURES):
         c = gen_normal(rng, nch=rng.choice([1, 2]))
         if 40 < len(c.stream("c")) <= maxlen and len(c.stream("s")) <= maxlen:
@@ -1491,9 +1494,12 @@ def c08(ctx):
     for gi, (c, s, tail) in enumerate(streams):
         start = len(lines)
         lines.append(case_line("g%d" % gi, c, s, ct=tail, st=tail))
-        for k in range(1, len(c)):
+        # every two-piece split (sampled for streams beyond 600 bytes: the case text is quadratic otherwise)
+        ck = range(1, len(c)) if len(c) <= 600 else sorted(rng.sample(range(1, len(c)), 300))
+        sk = range(1, len(s)) if len(s) <= 600 else sorted(rng.sample(range(1, len(s)), 300))
+        for k in ck:
             lines.append(case_line("g%dc%d" % (gi, k), c, s, cc=[k], ct=tail, st=tail))
-        for k in range(1, len(s)):
+        for k in sk:
             lines.append(case_line("g%ds%d" % (gi, k), c, s, sc=[k], ct=tail, st=tail))
         lines.append(case_line("g%dbytes" % gi, c, s, cc=list(range(1, len(c))), sc=list(range(1, len(s))), ct=tail, st=tail))
         for j in range(25 if quick else 90):
